@@ -142,6 +142,69 @@ pub fn judge(inst: &Instance, hist: &[Act], r: &RunResult) -> Vec<(String, Strin
                 }
             }
         },
+        Program::Ops(ops) => {
+            // reads and writes mixed, with cancelled reads in between: the read results are a
+            // prefix of the reference, and the outbound side is always a sequence of WHOLE frames
+            // (pongs and the user's frames in call order) plus at most a prefix of one frame
+            let codec = Codec::new(mode_of(inst.compressed));
+            let (want, ka) = reference_reads(inst, hist, &r.delivered);
+            let reads: Vec<&String> = r.results.iter().zip(&r.kinds).filter(|(_, k)| **k).map(|(s, _)| s).collect();
+            let writes_ok = r.results.iter().zip(&r.kinds).filter(|(s, k)| !**k && *s == "Ok(())").count();
+            // a read that was cancelled while the keep-alive reply was pending hands that keep-alive to a later read:
+            // so the reads are a subsequence-prefix: compare in order
+            if reads.len() > want.len() || reads.iter().zip(&want).any(|(a, b)| *a != b) {
+                out.push(("results-differ-after-cancel".into(), format!("read results {:?}, the frames delivered give {:?}", brief(&reads.iter().map(|s| (*s).clone()).collect::<Vec<_>>()), brief(&want))));
+                return out;
+            }
+            if let Some(bad) = r.results.iter().zip(&r.kinds).find(|(s, k)| !**k && *s != "Ok(())") {
+                out.push(("write-failed".into(), format!("write returned {}", bad.0)));
+                return out;
+            }
+            let user: Vec<Vec<u8>> = ops.iter().flatten().filter_map(|p| codec.encode(p).ok().map(|b| b.to_vec())).collect();
+            let pg = pong(inst.compressed);
+            let mut o = 0usize;
+            let mut u = 0usize;
+            let mut pongs = 0usize;
+            let mut partial_pong = false;
+            while o < r.written.len() {
+                let n = if inst.compressed { r.written[o] as usize * 4 } else { r.written[o] as usize };
+                let rest = &r.written[o..];
+                if n >= 4 && rest.len() >= n {
+                    let f = &rest[..n];
+                    if f == pg {
+                        pongs += 1;
+                    } else if u < user.len() && f == &user[u][..] {
+                        u += 1;
+                    } else {
+                        out.push(("torn-or-foreign-frame-on-the-wire".into(), format!("outbound bytes {} contain {} at offset {o}, which is neither a keep-alive reply nor the next packet written ({})", crate::report::hex(&r.written), crate::report::hex(f), user.get(u).map(|x| crate::report::hex(x)).unwrap_or_default())));
+                        return out;
+                    }
+                    o += n;
+                } else {
+                    let is_pong_prefix = rest.len() < 4 && pg[..rest.len()] == *rest;
+                    let is_user_prefix = u < user.len() && rest.len() < user[u].len() && user[u][..rest.len()] == *rest;
+                    if !(is_pong_prefix || is_user_prefix) {
+                        out.push(("torn-or-foreign-frame-on-the-wire".into(), format!("outbound bytes {} end in {} which is not the beginning of a keep-alive reply or of the next packet written", crate::report::hex(&r.written), crate::report::hex(rest))));
+                        return out;
+                    }
+                    partial_pong = is_pong_prefix && !is_user_prefix;
+                    break;
+                }
+            }
+            let handed = ka.iter().filter(|i| **i < reads.len()).count();
+            if pongs < handed {
+                out.push(("keep-alive-handed-over-unanswered".into(), format!("{handed} keep-alive(s) handed to the caller, {pongs} complete repl(ies) on the wire")));
+                return out;
+            }
+            if pongs + partial_pong as usize > ka.len() {
+                out.push(("unsolicited-or-duplicate-reply".into(), format!("{} keep-alive(s) received, {pongs} complete repl(ies) (+ partial: {partial_pong}) on the wire", ka.len())));
+                return out;
+            }
+            if u < writes_ok {
+                out.push(("write-returned-before-frame-complete".into(), format!("{writes_ok} write(s) returned Ok, {u} complete frame(s) of them on the wire")));
+                return out;
+            }
+        },
         Program::Writes(ps) => {
             let codec = Codec::new(mode_of(inst.compressed));
             let mut expect_all: Vec<u8> = vec![];
